@@ -225,7 +225,10 @@ def run(tier, seed):
     # another interpreter: different hash seed, process-pool backend
     rng = random.Random(seed)
     narrow = [g for g in groups if not g[1].get('_wide')]
-    sample = rng.sample(narrow, min(len(narrow), 12 if tier == 'quick' else 60))
+    # (entry points whose result may legitimately depend on the chunking - superfluous candidates of Prefix / Position /
+    # Suffix filter_tables - are not compared across job counts)
+    narrow_eq = [g for g in narrow if g[1]['api'].split('.')[0] in EQ_APIS]
+    sample = rng.sample(narrow_eq, min(len(narrow_eq), 12 if tier == 'quick' else 60))
     sub_cases = []
     for g in sample:
         c = copy.deepcopy(g[1])
@@ -245,6 +248,8 @@ def run(tier, seed):
     for g, c, so, br in zip(sample, sub_cases, sub_out, base_rows):
         if so['rows'] is None or br is None:
             continue
+        if g[1]['api'].split('.')[0] not in EQ_APIS:
+            continue          # Prefix / Position / Suffix filter_tables: superfluous candidates may vary with the chunking
         l = {'tid': len(laws) + 1, 'law': 'EQ', 'prop': 'C10', 'A': br, 'B': so['rows'], 't': c['t'],
              'label': 'other-process-hashseed-loky', 'meas': c['meas'], 'op': c['op']}
         by_tid[('law', l['tid'])] = (g, l['label'])
